@@ -290,4 +290,3 @@ func toString(v value) string {
 	writeValue(&b, v)
 	return b.String()
 }
-
